@@ -28,6 +28,11 @@ def sweep_cases(tier):
     for k in range(1, (41 if tier == 'thorough' else 13)):
         for m in (1, 2, 125, 248, 249, 250, 251, 255, 256):
             cases.append(('target', '/'.join(['c' * m] * k)))
+    if tier != 'thorough':
+        # many short components (each costs 2 bytes of header): the quick tier needs them up to 40 as well
+        for k in range(13, 41):
+            for m in (1, 2):
+                cases.append(('target', '/'.join(['c' * m] * k)))
     comps = ['', '.', '..', 'a', '.a', 'a.']
     for k in range(1, 5 if tier == 'thorough' else 4):
         for t in itertools.product(comps, repeat=k):
